@@ -779,7 +779,7 @@ def run(ck):
     stats["t_witness"] = round(time.time() - ck.t0, 1)
 
     # ---- 4. ADF: truncations, model-guided field corruptions, structural attacks
-    quota = None if big else 170          # mutants per file in quick (a seeded sample; every class kept represented)
+    quota = 900 if big else 170           # field mutants per file (a seeded sample; every class kept represented)
     tasks = []                            # (file, idx, desc, cls, data, model script line)
     files = {}
     for name in adf_names:
@@ -804,13 +804,17 @@ def run(ck):
             marks.update([s["pos"] + 3, s["pos"] + 16, s["end"], s["end"] + 3, s["end"] + 4])
         for b in range(4096, len(data), 4096):
             marks.update([b - 1, b, b + 1])
-        if big and len(data) <= 8192:
-            lens = list(range(0, min(eof + 40, len(data)) + 1))
+        lens = sorted(m for m in marks if 0 <= m <= len(data))
+        if big:
+            # every length of the two headers, every structure boundary +-2, and a seeded sample of the rest
+            lens += list(range(0, min(520, len(data)) + 1))
+            for m in list(marks):
+                lens += [x for x in (m - 2, m - 1, m + 1, m + 2) if 0 <= x <= len(data)]
+            lens += [rng.randrange(0, min(eof + 40, len(data))) for _ in range(250)]
         else:
-            lens = sorted(m for m in marks if 0 <= m <= len(data))
-            if not big and len(lens) > 40:
+            if len(lens) > 40:
                 lens = sorted(set(rng.sample(lens, 40) + [0, 31, 32, 101, 102, 185, 186, 266, eof - 1]))
-            lens += [rng.randrange(0, min(eof + 40, len(data))) for _ in range(400 if big else 12)]
+            lens += [rng.randrange(0, min(eof + 40, len(data))) for _ in range(12)]
         tr = [("truncate to %d" % L, "truncation", L) for L in sorted(set(lens))]
         if quota is not None and len(muts) > quota:
             by = {}
@@ -818,7 +822,7 @@ def run(ck):
                 by.setdefault(m[1], []).append(m)
             keep = []
             for cls, lst in sorted(by.items()):
-                share = max(8, int(quota * len(lst) / len(muts)))
+                share = max(40 if big else 8, int(quota * len(lst) / len(muts)))
                 keep += lst if len(lst) <= share else rng.sample(lst, share)
             muts = keep
         stats["files"][name] = {"len": len(data), "nodes": len(af.nodes), "field_mutants": len(muts), "truncations": len(tr),
@@ -966,9 +970,10 @@ def run(ck):
     ck.cov["rule"] = ("decoder level: seeded hex / ASCII-disk-pointer strings over the boundary alphabet (/ 0 9 : @ A F G ` a f g, blank, NUL, "
                       "high bit), lengths 0..9; witness level: every file of corpus/C13 (one per defect ever found) in all modes -- they also "
                       "decide which state of the model is compared; file level: for each of the harness-made valid ADF files (cgio trees, "
-                      "links, multi-chunk data, legacy pointer format, two MLL files) all structure-boundary truncation lengths plus a seeded "
-                      "sample (thorough: every length of the small files), every field of every structure located by the model's decoders set "
-                      "to each boundary class (quick: a per-class seeded sample), structural attacks assembled with the model's encoders; "
+                      "links, multi-chunk data, legacy pointer format, two MLL files) structure-boundary truncation lengths plus a seeded "
+                      "sample (thorough: every length of the first 520 bytes, every boundary +-2), every field of every structure located by "
+                      "the model's decoders set to each boundary class (a per-class seeded sample: quick ~170, thorough ~900 per file; "
+                      "coverage.input_distribution.files gives the totals), structural attacks assembled with the model's encoders; "
                       "HDF5: seeded truncations and byte corruptions near marker values. Each mutant: model walk vs ADF-level walk "
                       "(correspondence) and cgio_check_file / cgio walk / cg_open+MLL read in separate watchdogged processes (oracle). "
                       "non-trivial = the model rejects something or predicts a forbidden outcome on it (ADF), or some API call returns an "
